@@ -49,10 +49,22 @@ func checkC07(e *Env) {
 	e.requireResult("RESULT", ob, gate.Outcome{Kind: gate.ErrNil, Idx: 2}, 1, "{"+tSizeDif+"|const:0}", "fileSize - declaredLength (zero here)")
 
 	add := e.fn("integrityblock.(*IntegrityBlock).addNewSignatureToIntegrityBlock")
-	e.requireStore("RESULT", add, "param:integrityBlock.SignatureStack", "append(alloc:[1]*integrityblock.IntegritySignature,param:integrityBlock.SignatureStack)", "the new one-element slice followed by the old stack (prepend)")
 	e.requireStore("RESULT", add, "alloc:integrityblock.IntegritySignature.Signature", "param:signature", "the signature passed in")
 	e.requireStore("RESULT", add, "alloc:integrityblock.IntegritySignature.SignatureAttributes", "param:signatureAttributes", "the attributes passed in")
-	e.requireStore("RESULT", add, "alloc:[1]*integrityblock.IntegritySignature[const:0]", "alloc:integrityblock.IntegritySignature", "the new signature object")
+	// prepend: append([]T{new}, old...), or a slice of len(old)+1 with new at
+	// index 0 and old copied behind it
+	firstOf(e,
+		func(e *Env) {
+			e.requireStore("RESULT", add, "param:integrityBlock.SignatureStack", "append(alloc:[1]*integrityblock.IntegritySignature,param:integrityBlock.SignatureStack)", "the new one-element slice followed by the old stack (prepend)")
+			e.requireStore("RESULT", add, "alloc:[1]*integrityblock.IntegritySignature[const:0]", "alloc:integrityblock.IntegritySignature", "the new signature object")
+		},
+		func(e *Env) {
+			const tNew = "make([]*integrityblock.IntegritySignature,(len(param:integrityBlock.SignatureStack) + const:1))"
+			e.requireStore("RESULT", add, "param:integrityBlock.SignatureStack", tNew, "a new slice one longer than the old stack (prepend)")
+			e.requireStore("RESULT", add, tNew+"[const:0]", "alloc:integrityblock.IntegritySignature", "the new signature object at the front")
+			e.requireGates("RESULT", add, gate.Outcome{Kind: gate.AnyReturn}, noCfg,
+				gate.CallInstr("A.copy-old", "builtin:copy", "slice("+tNew+",const:1,)", "param:integrityBlock.SignatureStack"))
+		})
 
 	gd := e.fn("integrityblock.GenerateDataToBeSigned")
 	out := gate.Outcome{Kind: gate.ErrNil, Idx: 1}
